@@ -240,7 +240,10 @@ impl<'a, 'tcx> Cx<'a, 'tcx> {
         let mut o = Obj::new();
         o.s("k", "const");
         let cty = c.const_.ty();
-        o.s("ty", &tys(cty));
+        let is_fndef = matches!(cty.kind(), ty::FnDef(..));
+        if !is_fndef {
+            o.s("ty", &tys(cty));
+        }
         match cty.kind() {
             ty::FnDef(did, args) => {
                 o.s("fn", &canon(tcx, *did));
@@ -277,6 +280,9 @@ impl<'a, 'tcx> Cx<'a, 'tcx> {
         }
         if let Some(v) = val {
             o.s("v", &v);
+        }
+        if is_fndef {
+            return o.done();
         }
         let dbg = with_no_trimmed_paths!(format!("{}", c.const_));
         if dbg.len() < 400 {
